@@ -104,7 +104,7 @@ WL_INVS = ("HierarchyExclusion WorkloopExclusion Order BarrierExcl AtMostOnce No
 WL_INVS_PROP = "HierarchyExclusion WorkloopExclusion Order AtMostOnce NoStrand SyncAfterEnd"
 
 
-def wl_cfg(name, mut="none", live=True, workers=2, invs=None):
+def wl_cfg(name, mut="none", live=True, workers=2, invs=None, tag=""):
     m = WL_MODELS[name]
     txt = """SPECIFICATION FairSpec
 CONSTANTS
@@ -131,7 +131,7 @@ CHECK_DEADLOCK FALSE
 """ % (m["q"], m["q"], m["w"], m["qos"], m["buckets"], "TRUE" if m.get("inactive") else "FALSE",
        ", ".join('"w%d"' % (i + 1) for i in range(workers)), m["items"], m["items"], m["on"], m["prog"], mut, invs or WL_INVS,
        "PROPERTY Live" if live else "")
-    path = os.path.join(rundir(PROP), "Workloop_%s_%s.cfg" % (name, mut))
+    path = os.path.join(rundir(PROP), "Workloop_%s_%s%s.cfg" % (name, mut, tag))
     open(path, "w").write(txt)
     return path
 
@@ -513,6 +513,17 @@ def run(tier, seed):
                                       ("W1", "wakeup_no_dirty", True), ("W4s", "waiter_ignores_lock", True)],
                            pool=4, timeout=900 if quick else 3000)
     if not quick:
+        # reachability witnesses of MCWorkloop.tla: each names a branch of the workloop code (DIRTY met by try_lower_max_qos,
+        # max_qos lowered, the drain loop yielding to a higher bucket, the lock handed to a waiter of a lower bucket, the
+        # barrier_complete rmw retried on DIRTY, a worker failing to lock an owned workloop) and must be VIOLATED = explored
+        reach = [("W2", "ReachLowerDirty"), ("W2", "ReachLowerSet"), ("W5x", "ReachYield"), ("W5x", "ReachLowWaiter"),
+                 ("W2s", "ReachBcDirty"), ("W2s", "ReachLockFail")]
+        rr = par([(lambda c=c, i=i: tlc_retry("reach " + i, "MCWorkloop.tla", wl_cfg(c, mut="none", live=False, invs=i, tag=i), timeout=900,
+                                              workers=4, heap="2g", metaname="C03_wl_reach_%s" % i)) for c, i in reach], 3)
+        for (c, i), r in zip(reach, rr):
+            if not r.violated:
+                raise Broken("branch witness %s is not reachable in Workloop config %s: bounds are vacuous" % (i, c))
+        v.notes["workloop_branches_reached"] = [i for _, i in reach]
         # observation outside C03 (reported, not judged): a second dispatch_activate(workloop) returns as soon as it sees INACTIVE
         # clear, possibly before the first call cleared NEEDS_ACTIVATION; submitting then crashes in _dispatch_workloop_wakeup
         r = tlc_retry("obs", "MCWorkloop.tla", wl_cfg("W1i", mut="obs_any_activate_returns", live=False, invs="NoCrash"), timeout=600,
@@ -531,8 +542,11 @@ def run(tier, seed):
     if quick:
         for k, shp in enumerate(shapes):
             runs.append(dict(shape=shp, cw=2 + k % 2, execs=5, ops=25, perturb=2 + k % 2, nt=3))
+        # the workloop shapes with the most paths once more: heavier perturbation, four clients
+        runs.append(dict(shape=10, cw=2, execs=5, ops=25, perturb=3, nt=4))
+        runs.append(dict(shape=6, cw=2, execs=5, ops=25, perturb=3, nt=4))
     else:
-        for rep in range(6):
+        for rep in range(8):
             for k, shp in enumerate(shapes):
                 runs.append(dict(shape=shp, cw=2 + (k + rep) % 2, execs=8, ops=35, perturb=2 + (k + rep) % 2, nt=3 + rep % 2,
                                  pp=0 if rep == 3 else 1))
